@@ -658,11 +658,15 @@ def traced_walk(cls, root, ids, tids, args=(), kw=None, method='visit', timeout=
             events.append(('in', ids[id(node)]))
             r = orig(self, node)
             if r is None:
-                rets.append([])
+                rets.append((False, []))
                 return None
-            lst = [r] if isinstance(r, ForestNode) else list(r)
-            lst = [x for x in lst if x is not None]
-            rets.append([ids[id(x)] for x in lst])
+            if isinstance(r, ForestNode):
+                # a single node handed back as such: passed on unchanged, so that visit()'s own branch for this
+                # return convention runs
+                rets.append((True, [ids[id(r)]]))
+                return r
+            lst = [x for x in list(r) if x is not None]
+            rets.append((False, [ids[id(x)] for x in lst]))
             return lst
         return f
 
